@@ -30,6 +30,24 @@ class Expander:
                     for a, b in zip(t.elts, n.value.elts):
                         if isinstance(a, ast.Name):
                             self.local.setdefault(a.id, []).append(b)
+        # buffers assembled by block stores:  B = np.empty(...); B[0] = a; B[1:] = b   ==  vstack((a, b))
+        self.stores = {}
+        for n in ast.walk(fn):
+            if isinstance(n, ast.Assign) and len(n.targets) == 1 and isinstance(n.targets[0], ast.Subscript) and isinstance(n.targets[0].value, ast.Name):
+                self.stores.setdefault(n.targets[0].value.id, []).append((n.targets[0].slice, n.value, n.lineno))
+
+    @staticmethod
+    def _first_index(sl):
+        if isinstance(sl, ast.Tuple) and sl.elts:
+            sl = sl.elts[0]
+        if isinstance(sl, ast.Constant) and isinstance(sl.value, int):
+            return sl.value
+        if isinstance(sl, ast.Slice):
+            if sl.lower is None:
+                return 0
+            if isinstance(sl.lower, ast.Constant) and isinstance(sl.lower.value, int):
+                return sl.lower.value
+        return None
 
     def positive(self, e) -> bool:
         if isinstance(e, ast.Constant) and isinstance(e.value, (int, float)) and e.value > 0:
@@ -61,6 +79,18 @@ class Expander:
                 vs = [v for v in vs if not (isinstance(v, ast.BinOp) and isinstance(v.op, (ast.Div, ast.Mult))
                                             and ((isinstance(v.left, ast.Name) and v.left.id == e.id and self.positive(v.right))
                                                  or (isinstance(v.right, ast.Name) and v.right.id == e.id and self.positive(v.left))))]
+            if vs and len(vs) == 1 and isinstance(vs[0], ast.Call) and (dotted(vs[0].func) or "").split(".")[-1] in ("empty", "zeros", "empty_like", "zeros_like") \
+                    and e.id in self.stores:
+                st = self.stores[e.id]
+                keys = [self._first_index(sl) for sl, _, _ in st]
+                order = sorted(range(len(st)), key=(lambda i: keys[i]) if all(k is not None for k in keys) else (lambda i: st[i][2]))
+                out = []
+                for k, i in enumerate(order):
+                    r = self.expand(st[i][1], depth + 1)
+                    if r is None:
+                        return None
+                    out += [(s_, (f"#{k}",) + f) for s_, f in r]
+                return out
             if vs and len(vs) == 1:
                 # a slice of a parameter (p = P[1:]) is an atom, not a formula
                 if isinstance(vs[0], ast.Subscript) and isinstance(vs[0].value, ast.Name):
